@@ -693,7 +693,22 @@ fn oracles(
         }
         if ok {
             // region of known finding `derive_through_blocklisted_opaque`
-            let both: Vec<&str> = run.dump.items.iter().filter(|it| it.kind == "type" && it.blocklisted && it.opaque && it.type_kind.as_deref() == Some("Comp")).map(|it| it.name.as_str()).collect();
+            // … reached through an allow-listed type reference / alias item (the item the analysis asks is the
+            // reference, which is opaque and not blocklisted); a container naming the blocklisted item directly
+            // is answered by the blocklist test first and is NOT in the region
+            let both_ids: BTreeSet<u64> = run.dump.items.iter().filter(|it| it.kind == "type" && it.blocklisted && it.opaque && it.type_kind.as_deref() == Some("Comp")).map(|it| it.id).collect();
+            let reaches = |start: &am::DumpItem| -> Option<u64> {
+                let mut cur = start;
+                for _ in 0..32 {
+                    if !matches!(cur.type_kind.as_deref(), Some("ResolvedTypeRef") | Some("Alias") | Some("TemplateAlias")) { return None; }
+                    let inner = cur.type_rec.as_ref().and_then(|r| r.num("inner"))?;
+                    if both_ids.contains(&inner) { return Some(inner); }
+                    cur = run.dump.item(inner)?;
+                }
+                None
+            };
+            let via: BTreeSet<u64> = run.dump.items.iter().filter(|it| it.kind == "type" && it.allowlisted && !it.blocklisted).filter_map(|it| reaches(it)).collect();
+            let both: Vec<&str> = run.dump.items.iter().filter(|it| via.contains(&it.id)).map(|it| it.name.as_str()).collect();
             let head = if both.is_empty() { String::new() } else { format!("// blocklisted-and-opaque: {}\n", both.join(", ")) };
             rustc_queue.push((format!("{head}{raw}\n{}", run.bindings), full.bindings.clone(), case_json(c)));
         }
